@@ -153,6 +153,8 @@ def dev(A):
 
 
 def sym_fun(C, f):
+    if not np.all(np.isfinite(C)):
+        return np.full((3, 3), np.nan)
     w, V = np.linalg.eigh(0.5 * (C + C.T))
     return (V * f(w)) @ V.T
 
@@ -299,23 +301,31 @@ class App:
         m = {k: v for k, v in self.mat.items() if k != 'model'}
         return m
 
-    def build(self):
+    def build(self, fresh=False):
         L = self.L
         jax = L['jax']
-        mod = {'j2': L['J2'], 'visco1': L['V1'], 'visco3': L['V3']}[self.mat['model']]
-        with core.quiet_stdout():
-            model = mod.create_material_model_functions(self.props())
-        self.model = model
-        W = model.compute_energy_density
-        self.f_upd = jax.jit(jax.vmap(model.compute_state_new, (0, 0, None)))
-        self.f_W = jax.jit(jax.vmap(W, (0, 0, None)))
-        self.f_P = jax.jit(jax.vmap(jax.grad(W, 0), (0, 0, None)))
-        self.f_T = jax.jit(jax.vmap(lambda H, s, dt, D: jax.jvp(lambda h: jax.grad(W, 0)(h, s, dt), (H,), (D,))[1],
-                                    (0, 0, None, 0)))
-        self.f_q = jax.jit(jax.vmap(model.compute_material_qoi, (0, 0, None)))
-        if self.cfg.get('single_point_replica'):
-            self.f_upd1 = jax.jit(model.compute_state_new)
-            self.f_W1 = jax.jit(W)
+        key = core.dumps(self.mat)
+        memo = _cache.setdefault('models', {})
+        if fresh or key not in memo:
+            mod = {'j2': L['J2'], 'visco1': L['V1'], 'visco3': L['V3']}[self.mat['model']]
+            with core.quiet_stdout():
+                model = mod.create_material_model_functions(self.props())
+            W = model.compute_energy_density
+            fns = dict(
+                model=model,
+                f_upd=jax.jit(jax.vmap(model.compute_state_new, (0, 0, None))),
+                f_W=jax.jit(jax.vmap(W, (0, 0, None))),
+                f_P=jax.jit(jax.vmap(jax.grad(W, 0), (0, 0, None))),
+                f_T=jax.jit(jax.vmap(lambda H, s, dt, D: jax.jvp(lambda h: jax.grad(W, 0)(h, s, dt), (H,), (D,))[1],
+                                     (0, 0, None, 0))),
+                f_q=jax.jit(jax.vmap(model.compute_material_qoi, (0, 0, None))),
+                f_upd1=jax.jit(model.compute_state_new), f_W1=jax.jit(W))
+            if len(memo) > 4:
+                memo.clear()
+            memo[key] = fns
+            self.ctx.probe('material_compiled')
+        for k, v in memo[key].items():
+            setattr(self, k, v)
 
     def rand_dirs(self):
         D = self.rng.normal(size=(self.N, 3, 3))
@@ -410,6 +420,12 @@ class App:
                         lambda: 'single call and compiled batch disagree by %.3g' % np.max(np.abs(one - new[0])))
         if self.cfg.get('fd'):
             self.fd_check(Hn, old, dt)
+        bad = ~np.all(np.isfinite(new), axis=1)
+        if np.any(bad):
+            # a caller cannot carry a NaN state forward: those points keep their old state and place
+            new = np.where(bad[:, None], old, new)
+            Hn = np.where(bad[:, None, None], self.H, Hn)
+            ctx.probe('nan_state_not_committed', int(np.sum(bad)))
         self.H, self.state = Hn, new
 
     def sim_dt(self, dt):
@@ -698,7 +714,7 @@ class App:
 
     def restart(self):
         self.ctx.fault('restart')
-        self.build()
+        self.build(fresh=True)
         self.ctx.label('restart')
 
 
